@@ -14,6 +14,29 @@ theorem roundtrip (c : Codec P) (batch : List (Deliver P)) :
     decode c (encode c batch) = ((batch.filter (sendable c)).map Deliver.toDelivery, .ok) :=
   decode_encode c batch
 
+/-- what the receiver gets of a batch, given that the writer puts nothing on the wire when no message of the batch
+    could be encoded (`transmit`). -/
+def received (c : Codec P) (batch : List (Deliver P)) : List (Delivery P) × Outcome :=
+  match transmit c batch with
+  | none => ([], .ok)
+  | some e => decode c e
+
+/-- … and that changes nothing: with or without the empty envelope, the receiver delivers exactly the sendable
+    messages of the batch. -/
+theorem roundtrip_transmit (c : Codec P) (batch : List (Deliver P)) :
+    received c batch = ((batch.filter (sendable c)).map Deliver.toDelivery, .ok) := by
+  unfold received transmit
+  by_cases h : (encode c batch).messages.isEmpty = true
+  · have hr := roundtrip c batch
+    simp only [h, if_true]
+    have hm : (encode c batch).messages = [] := List.isEmpty_iff.mp h
+    unfold decode at hr
+    rw [hm] at hr
+    simp only [decodeMsgs] at hr
+    exact hr
+  · simp only [h]
+    exact roundtrip c batch
+
 /-- a batch in which everything is sendable arrives complete. -/
 theorem roundtrip_all (c : Codec P) (batch : List (Deliver P)) (h : ∀ d ∈ batch, sendable c d = true) :
     decode c (encode c batch) = (batch.map Deliver.toDelivery, .ok) := by
